@@ -5,6 +5,7 @@ E = [
     ("supports_names_select_their_flag", "for each of the 24 documented `supports = <name>` values and every combination of support flags: is_name_value(\"supports\", name) == Ok(flag named <name>)",
      [(F, "impl AttributeValidator for BasicAttributeValidator::is_name_value")], 2, ["C13"], "complete", "none (24 names x all flag values)"),
     ("unknown_supports_value_is_an_error", "an unknown supports value is a lowering error; other names are false without a backend predicate", [(F, "impl AttributeValidator for BasicAttributeValidator::is_name_value")], None, ["C13"], "bounded", "concrete probe strings"),
+    ("backend_names_exact_symbolic", "is_backend(s) for every ASCII string s of length <= 4 (backend js, alias node): true iff s is exactly one of the two names (no prefix / extension matches)", [(F, "impl AttributeValidator for BasicAttributeValidator::is_backend")], 4, ["C13"], "bounded", "all ASCII strings of length <= 4; one backend name and one alias"),
     ("backend_names", "is_backend: primary name or one of other_backend_names, exact match", [(F, "impl AttributeValidator for BasicAttributeValidator::is_backend")], None, ["C13"], "bounded", "concrete probe strings (js / javascript / dart / j / empty)"),
 ]
 define(globals(), "supports_table", "core", F, "verif_supports", "supports_table.rs",
